@@ -6,6 +6,7 @@ import (
 	"io"
 	"os"
 	"path/filepath"
+	"regexp"
 	"sort"
 	"strings"
 	"testing"
@@ -87,6 +88,14 @@ func c20CheckScan(c *kit.Case, d *gen.Doc, truth []c20Obj, xf *kit.XFile, data [
 			found[o.Reference] = append(found[o.Reference], o)
 		}
 	}
+	// is the indirect /Length object of a stream available?
+	lengthKnown := func(t c20Obj) bool {
+		if t.lenRef == nil {
+			return true
+		}
+		lo := xf.Objects[t.lenRef.Num]
+		return lo != nil && lo.End <= avail
+	}
 	for _, t := range complete {
 		var fo *pdf.FileObject
 		for _, o := range found[t.w.Ref] {
@@ -99,7 +108,13 @@ func c20CheckScan(c *kit.Case, d *gen.Doc, truth []c20Obj, xf *kit.XFile, data [
 			c.Violationf(what+"/complete-object-not-listed", "%s\nobject %s at offset %d..%d is complete but not listed at its offset (listed: %v)", ctx(), t.w.Ref, t.start, t.end, found[t.w.Ref])
 			continue
 		case fo.Broken:
-			c.Violationf(what+"/complete-object-broken", "%s\nobject %s at offset %d..%d is complete but marked broken", ctx(), t.w.Ref, t.start, t.end)
+			key := what + "/complete-object-broken"
+			if t.w.IsStream && !lengthKnown(t) && c20EOLEndstream.Match(t.w.Body) {
+				// the object holding /Length is cut off and the data has a line
+				// starting with "endstream": recorded as finding D39
+				key += "/length-object-lost/data-has-EOL-endstream"
+			}
+			c.Violationf(key, "%s\nobject %s at offset %d..%d is complete but marked broken", ctx(), t.w.Ref, t.start, t.end)
 			continue
 		}
 		val, err := fi.Read(fo)
@@ -119,14 +134,7 @@ func c20CheckScan(c *kit.Case, d *gen.Doc, truth []c20Obj, xf *kit.XFile, data [
 			c.Violationf(what+"/not-a-stream", "%s\nobject %s read as %T", ctx(), t.w.Ref, val)
 			continue
 		}
-		// is the indirect /Length object available?
-		lengthKnown := true
-		if t.lenRef != nil {
-			lengthKnown = false
-			if lo := xf.Objects[t.lenRef.Num]; lo != nil && lo.End <= avail {
-				lengthKnown = true
-			}
-		}
+		lengthKnown := lengthKnown(t)
 		body := t.w.Body
 		endsInEOL := len(body) > 0 && (body[len(body)-1] == '\r' || body[len(body)-1] == '\n')
 		rc, err := pdf.DecodeStream(c20Getter{d.Cfg.Version}, nil, stm)
@@ -169,6 +177,8 @@ func c20CheckScan(c *kit.Case, d *gen.Doc, truth []c20Obj, xf *kit.XFile, data [
 	}
 	return fi
 }
+
+var c20EOLEndstream = regexp.MustCompile(`[\r\n]endstream`)
 
 func c20Config(c *kit.Case) gen.DocConfig {
 	cfg := gen.RandomConfig(c.Rng, -1)
@@ -217,6 +227,43 @@ func TestVerifC20(t *testing.T) {
 			c.Sample(map[string]any{"config": cfg.String(), "ops": strings.Join(d.Ops, " "), "file_bytes": len(d.Data),
 				"offsets_enumerated": len(d.Data) + 1, "objects": len(truth)})
 		}
+	})
+
+	// long unfiltered streams whose text has lines starting with "endstream", on
+	// non-seekable sinks (indirect /Length objects written after the stream)
+	r.Phase("endstream-lines", r.N(32, 600), func(c *kit.Case) {
+		cfg := c20Config(c)
+		cfg.NoFilters = true
+		cfg.EndstreamBodies = true
+		cfg.Seekable = c.Index%4 == 3
+		cfg.MaxOps = 2 + c.Rng.Intn(4)
+		d, err := gen.BuildDoc(c.Rng, cfg)
+		if err != nil {
+			c.Violationf("writer-refused-valid-call", "%v", err)
+			return
+		}
+		truth, xf := c20Truth(c, d)
+		if truth == nil {
+			return
+		}
+		step := 1
+		if len(d.Data) > 8000 {
+			step = 7 // every 7th offset plus the object boundaries below
+		}
+		for cut := 0; cut <= len(d.Data); cut += step {
+			c20CheckScan(c, d, truth, xf, d.Data[:cut], "truncated", false)
+			c.R.Count("truncation_offsets", 1)
+		}
+		for _, t := range truth {
+			for _, cut := range []int{t.end, t.end + 1, t.start + 1} {
+				if cut >= 0 && cut <= len(d.Data) {
+					c20CheckScan(c, d, truth, xf, d.Data[:cut], "truncated", false)
+				}
+			}
+		}
+		c20CheckScan(c, d, truth, xf, d.Data, "complete-file", true)
+		c.R.Count("documents_with_endstream_lines", 1)
+		c.Distinct(fmt.Sprintf("es|%s|%s|%d", cfg.Cell(), strings.Join(d.Ops, " "), len(d.Data)))
 	})
 
 	// damage to the cross-reference data
